@@ -21,7 +21,7 @@ pub fn prop() -> Prop {
             "get_pixel is only called with points inside the 64x64 area (it indexes unchecked by design)",
             "patterns use each colour type's canonical characters",
         ],
-        subs: vec![Sub::tape("histories", 120, 6_000, 200_000, histories)],
+        subs: vec![Sub::tape("histories", 120, 40_000, 600_000, histories)],
     }
 }
 
